@@ -45,42 +45,39 @@ pub(crate) fn borrow_for_builder(ty: &Type) -> TokenStream {
 #[inline]
 pub(crate) fn create_format_arg(
     ast: &DeriveInput,
-    field_ty: &Type,
     format_method: &Path,
     field_expr: proc_macro2::TokenStream,
 ) -> proc_macro2::TokenStream {
-    let ty_ident = &ast.ident;
-
-    // We use the complete original generics, not filtered by field,
-    // and include a PhantomData<Self> in our wrapper struct to use the generics.
-    //
-    // This avoids having to try to calculate the right *subset* of the generics
-    // relevant for this field, which is nontrivial and maybe impossible.
-    let (impl_generics, ty_generics, where_clause) = ast.generics.split_for_impl();
-
     // The wrapper is an item, so its name is visible to everything the user wrote inside the
-    // type (generic parameters, field types, the method path): pick one that occurs nowhere in it.
+    // type (the field type, the method path): pick one that occurs nowhere in it.
     let wrapper = fresh_ident(ast, "Educe__DebugField");
 
+    // The method is called from a closure in the body of `fmt` itself: there the path means what
+    // the user wrote (`Self`, the generic parameters, the bounds of this impl), and the field
+    // coerces to the parameter of the method as in a direct call. The closure takes its signature
+    // from the bound of the wrapper, whose `V` is the type of the field as it is (nothing the user
+    // wrote is written again).
     quote!(
         let arg = {
-            // The field type is written as a generic argument, where it means exactly what it means in the
-            // definition of the type (behind a `&` of the impl header, `dyn A + B` is not a type and the
-            // lifetime bound of `*mut dyn A` is no longer `'static`).
             #[allow(non_camel_case_types)] // We're using __ to help avoid clashes.
-            struct #wrapper<'a, V: ?::core::marker::Sized, M: ?::core::marker::Sized>(&'a V, ::core::marker::PhantomData<M>);
+            struct #wrapper<'a, V: ?::core::marker::Sized, F>(&'a V, F)
+            where
+                F: ::core::ops::Fn(&V, &mut ::core::fmt::Formatter<'_>) -> ::core::fmt::Result;
 
-            impl #impl_generics ::core::fmt::Debug
-                for #wrapper<'_, #field_ty, #ty_ident #ty_generics>
-                #where_clause
+            impl<'a, V: ?::core::marker::Sized, F> ::core::fmt::Debug for #wrapper<'a, V, F>
+            where
+                F: ::core::ops::Fn(&V, &mut ::core::fmt::Formatter<'_>) -> ::core::fmt::Result,
             {
                 #[inline]
                 fn fmt(&self, educe__f: &mut ::core::fmt::Formatter<'_>) -> ::core::fmt::Result {
-                    #format_method(self.0, educe__f)
+                    (self.1)(self.0, educe__f)
                 }
             }
 
-            #wrapper(#field_expr, ::core::marker::PhantomData::<Self>)
+            #wrapper(
+                #field_expr,
+                |educe__v, educe__f| #format_method(educe__v, educe__f),
+            )
         };
     )
 }
